@@ -52,7 +52,7 @@ func spaces(thorough bool) []chanmc.Space {
 	}
 	// 3-HTLC scripts (incl. an equal hash/amount/expiry duplicate pair) on all
 	// seven types: deviation-bounded around the eager schedule (quick), full (thorough).
-	dev := 1
+	dev := 2
 	if thorough {
 		dev = -1
 	}
